@@ -374,6 +374,24 @@ def install():
     def _isclose(ex, *a, **k):
         raise Unsupported('math.isclose')
 
+    @_B('pathlib.Path')
+    def _path(ex, p):
+        from .core import PyPath
+        if isinstance(p, PyPath):
+            return p
+        if isinstance(p, str):
+            return PyPath(p)
+        raise Unsupported('Path of %r' % type(p).__name__)
+
+    @_B('json.load')
+    def _json_load(ex, f):
+        # data files shipped with the repository are read concretely from the working tree
+        import json as _json
+        from .core import PyPath
+        if isinstance(f, PyPath):
+            return _json.load(open(f.p))
+        raise Unsupported('json.load of %r' % (f,))
+
     @_B('decimal.Decimal')
     def _decimal(ex, v):
         raise Unsupported('Decimal')
@@ -657,17 +675,17 @@ def _dict_method(d, name):
         return list(d.items())
 
     def get(ex, k, default=None):
-        if isinstance(k, SStr):
-            for key in d:
-                if isinstance(key, str) and ex.truth(ex.equals(k, key)):
-                    return d[key]
-            return default
-        if isinstance(k, Sym):
-            raise Unsupported('dict.get with symbolic key')
-        return d.get(k, default)
+        from .core import dict_find, MISSING
+        key = dict_find(ex, d, k)
+        return default if key is MISSING else d[key]
 
     def setdefault(ex, k, default=None):
-        return d.setdefault(k, default)
+        from .core import dict_find, MISSING, _hashable
+        key = dict_find(ex, d, k)
+        if key is MISSING:
+            d[_hashable(k)] = default
+            return default
+        return d[key]
 
     def update(ex, other=(), **kw):
         d.update(other)
